@@ -315,7 +315,12 @@ impl GlobalCollector {
         }
 
         for DropCollect { collect_id } in self.drop_collects.drain(..) {
-            self.active_collectors.remove(&collect_id);
+            // Cancelling a trace is only supported when `cancelable` is enabled. Otherwise
+            // `Span::cancel()` must not affect what is reported, including the events and
+            // properties that are waiting here for their span.
+            if self.config.cancelable {
+                self.active_collectors.remove(&collect_id);
+            }
         }
 
         for SubmitSpans {
